@@ -440,6 +440,54 @@ Section Flat.
     rewrite <- (plain_chars_codes (result_of lib name args)) at 1 by (apply result_plain; assumption).
     rewrite finalize_plain by lia. reflexivity.
   Qed.
+
+  (** A page of text and any number of flat calls: every call is replaced by the result of the rule, the text stays. *)
+  Notation flat_item := (FlatCall.flat_item pfnames lib).
+  Notation page_result := (FlatCall.page_result lib).
+
+  Lemma page_result_plain page : forallb flat_item page = true -> plain (page_result page) = true.
+  Proof.
+    induction page as [|i page IH]; intros H; [reflexivity|]. cbn in H. apply andb_true_iff in H. destruct H as [Hi Hp].
+    unfold FlatCall.page_result. cbn [flat_map]. rewrite plain_app. fold (page_result page). rewrite (IH Hp), andb_true_r.
+    destruct i as [c|[|n args]| | | |]; try discriminate Hi; [reflexivity|].
+    apply andb_true_iff in Hi. destruct Hi as [Hn Hok].
+    destruct (flat_ok_premises _ _ Hok) as (_ & _ & _ & H4 & H5). apply result_plain; assumption.
+  Qed.
+
+  Theorem flat_pages nwmap page :
+    forallb flat_item page = true -> o_tfn opts = [] -> o_pfn opts = [] ->
+    exists F, forall fuel, (F <= fuel)%nat ->
+      expand_page pfnames nwmap lib opts false fuel page = Some (codes (page_result page)).
+  Proof.
+    intros Hpage Htfn Hpfn.
+    assert (Hrec : exists F, forall fuel, (F <= fuel)%nat ->
+              expand_recurse fuel [FTitle] true page = Some (page_result page)).
+    { induction page as [|i page IH].
+      - exists 1%nat. intros fuel Hf. destruct fuel; [lia | reflexivity].
+      - cbn in Hpage. apply andb_true_iff in Hpage. destruct Hpage as [Hi Hp].
+        destruct (IH Hp) as [F HF].
+        destruct i as [c|[|n args]| | | |]; try discriminate Hi.
+        + exists (S F). intros fuel Hf. destruct fuel as [|f]; [lia|].
+          cbn [Expand.expand_recurse]. rewrite (HF f) by lia. reflexivity.
+        + apply andb_true_iff in Hi. destruct Hi as [Hn Hok].
+          destruct (flat_ok_premises _ _ Hok) as (H1 & H2 & H3 & H4 & H5).
+          destruct (flat_call (codes n) args H1 H2 H3 H4 Htfn Hpfn H5) as [G HG].
+          exists (S (F + G)). intros fuel Hf. destruct fuel as [|f]; [lia|].
+          assert (E : n = chars (codes n)) by (symmetry; apply plain_chars_codes; exact Hn).
+          remember (codes n) as name eqn:En. rewrite E. clear E.
+          change (expand_recurse (S f) [FTitle] true (T (chars name :: args) :: page))
+            with (match expand_recurse f [FTitle] true page with
+                  | None => None
+                  | Some rest' => match expand_T f [FTitle] true (chars name :: args) with
+                                  | Some t => Some (t ++ rest') | None => None end
+                  end).
+          rewrite (HF f) by lia. rewrite (HG f) by lia.
+          unfold FlatCall.page_result. cbn [flat_map]. rewrite codes_chars. reflexivity. }
+    destruct Hrec as [F HF]. exists (S F). intros fuel Hf.
+    unfold expand_page. cbn [negb]. rewrite (HF fuel) by lia.
+    rewrite <- (plain_chars_codes (page_result page)) at 1 by (apply page_result_plain; exact Hpage).
+    rewrite finalize_plain by lia. reflexivity.
+  Qed.
 End Flat.
 
 (** The deviation the code is known to have (c04:trailing-newline-dropped) is exactly the gap between the two
